@@ -149,7 +149,7 @@ Proof.
   - rewrite gap_filter. reflexivity.
   - rewrite !filter_app, gap_filter, <- IH, !gap_true. simpl.
     f_equal. destruct (f_kind e); simpl; try reflexivity.
-    rewrite !filter_app, !gap_filter. reflexivity.
+    rewrite !filter_app, !gap_filter. simpl. rewrite gap_filter. reflexivity.
 Qed.
 
 Lemma walk_fluent_from_lossless : forall s body last,
